@@ -457,7 +457,7 @@ func streamC08(res *Result, enc *shardWriter, tlcOuts []string) {
 			res.Evaluations++
 			res.addCandidate(Candidate{Sig: map[string]any{"input": ints(c.Input), "class": "hang"},
 				Record: map[string]any{"kind": "c08", "input": ints(c.Input), "cut": c.Cut, "fail": c.Fail, "sched": c.Sched, "partner": ints(c.Partner)},
-				What: fmt.Sprintf("NextBlock did not return within 20 s on %q while a second parser worked on %q between the calls", c.Input, c.Partner)})
+				What:   fmt.Sprintf("NextBlock did not return within 20 s on %q while a second parser worked on %q between the calls", c.Input, c.Partner)})
 			return
 		}
 		res.Evaluations++
